@@ -230,7 +230,27 @@ def _search_form(ctx, p, f, ins):
             continue
         recv = arg_slice(f, t, 0)
         names = _names(f, recv)
-        if not (recv["locals"] & set_roots) or names & {"filter", "take_while", "skip_while", "take", "skip", "step_by", "rev"} - {"rev"}:
+        if not (recv["locals"] & set_roots) or names & {"take_while", "skip_while", "take", "skip", "step_by", "filter_map"}:
+            continue
+        # a filter in front of the search may only select on equality of the column
+        filt_ok = True
+        for fb in recv["calls"]:
+            ft = f.term(fb)
+            if (callee_of(ft) or {}).get("name") != "filter":
+                continue
+            for ck in arg_slice(f, ft, 1)["closures"]:
+                cf0 = p.funcs.get(ck)
+                sites0 = cmp_sites(cf0) if cf0 else []
+                if len(sites0) != 1 or sites0[0]["op"] != "Eq":
+                    filt_ok = False
+                    continue
+                fa0 = {x for x in slice_field_bases(cf0.slice_of_operand(sites0[0]["a"], at=(sites0[0]["bb"], cf0.INF))) if x}
+                fb0 = {x for x in slice_field_bases(cf0.slice_of_operand(sites0[0]["b"], at=(sites0[0]["bb"], cf0.INF))) if x}
+                capf = set(slice_field_bases(arg_slice(f, ft, 1)))
+                both = ("column" in fa0 and "column" in fb0) or ("column" in (fa0 | fb0) and "column" in capf)
+                if not both or (fa0 | fb0) - {"column", "0"}:
+                    filt_ok = False
+        if not filt_ok:
             continue
         cl = arg_slice(f, t, 1)
         cfs = [p.funcs[k] for k in cl["closures"] if k in p.funcs]
